@@ -8,6 +8,7 @@ void shim_imm_cancel(void *);
 int shim_net_register(int (*)(void *), void *, int, int);
 int shim_net_cancel(int, int);
 void *shim_timer_register(int (*)(void *), void *, long sec, long usec);
+void * shim_timer_register_double(int (*f)(void *), void * c, double t);
 void shim_timer_cancel(void *);
 int shim_timer_reset(void *);
 int shim_events_run(void);
